@@ -1,4 +1,84 @@
-import Cpl.Model.Evolve1D
+import Cpl.Spec.Ring
+import Cpl.Lemmas.Evolve1D
+
+/-!
+# C06 — callable timesteps gate every step; until_fixed_point halts at the first fixed point (1D part)
+
+The `while timesteps(np.array(array), t)` loop is modelled with fuel (`evolveDynamic fuel …` returns
+`none` when the fuel runs out: non-termination of a user predicate cannot be exhibited, only named).
+The predicate is a pure function of (rows of this call so far, t) in the model; *what* the
+implementation passes to it is checked by the harness recorder.
+-/
+
 namespace Cpl.C06
-theorem placeholder : True := trivial
+open Cpl Cpl.Spec
+
+variable {σ α : Type}
+
+/-- The rows of this call after `j` steps in the given mode: starting state first. -/
+def callRows [DecidableEq α] [Inhabited α] (mode : Mode) (rule : Rule1 σ α) (r : Nat) (init : List α)
+    (s : σ) (j : Nat) : List (List α) :=
+  init :: (fixedLoop mode rule r j 1 init Caches.empty s).1
+
+/-- **The dynamic evolution equals the fixed-count evolution of the same length.** If the predicate,
+    consulted with (rows of this call so far, `t` = their number), says yes for `t = 1..k` and no at
+    `t = k+1`, then (given enough fuel) the result is exactly `evolve` with `timesteps = k+1` — in
+    every memoize mode, error behaviour included. -/
+theorem dyn_eq_fixed [DecidableEq α] [Inhabited α] (fuel k : Nat) (hist : List (List α)) (init : List α)
+    (hlast : hist.getLast? = some init) (pred : List (List α) → Nat → Bool) (rule : Rule1 σ α) (r : Nat)
+    (mode : Mode) (s : σ)
+    (hyes : ∀ i, i < k → pred (callRows mode rule r init s i) (i + 1) = true)
+    (hno : pred (callRows mode rule r init s k) (k + 1) = false)
+    (hfuel : k < fuel) :
+    evolveDynamic fuel hist pred rule r mode s = some (evolveFixed hist (k + 1) rule r mode s) := by
+  sorry
+
+/-- **Declining at once returns the given history unchanged** (and consults the rule not at all). -/
+theorem dyn_zero_step [DecidableEq α] [Inhabited α] (fuel : Nat) (hist : List (List α)) (init : List α)
+    (hlast : hist.getLast? = some init) (pred : List (List α) → Nat → Bool) (rule : Rule1 σ α) (r : Nat)
+    (mode : Mode) (s : σ) (hno : pred [init] 1 = false) :
+    evolveDynamic (fuel + 1) hist pred rule r mode s = some (.ok (hist, s)) := by
+  sorry
+
+/-- A step is performed *only* when the predicate says yes: if the run ends normally with `k` new rows,
+    the predicate was true at `t = 1..k` on the rows so far and false at `t = k+1`. -/
+theorem dyn_result_gated [DecidableEq α] [Inhabited α] (fuel : Nat) (hist : List (List α)) (init : List α)
+    (hlast : hist.getLast? = some init) (pred : List (List α) → Nat → Bool) (rule : Rule1 σ α) (r : Nat)
+    (mode : Mode) (s s' : σ) (out : List (List α))
+    (h : evolveDynamic fuel hist pred rule r mode s = some (.ok (out, s'))) :
+    ∃ k, out.length = hist.length + k ∧
+      (∀ i, i < k → pred (callRows mode rule r init s i) (i + 1) = true) ∧
+      pred (callRows mode rule r init s k) (k + 1) = false ∧
+      out = hist ++ (callRows mode rule r init s k).drop 1 := by
+  sorry
+
+/-- **until_fixed_point stops exactly at the first step that leaves the state unchanged**:
+    if row `k` (k ≥ 1) of this call is the first one equal to its predecessor, the run is the
+    fixed-count evolution with `k` steps. -/
+theorem untilFixedPoint_stops_at_first [DecidableEq α] [Inhabited α] (fuel k : Nat) (hist : List (List α))
+    (init : List α) (hlast : hist.getLast? = some init) (rule : Rule1 σ α) (r : Nat) (mode : Mode) (s : σ)
+    (hk : 1 ≤ k)
+    (hfirst : ∀ i, 1 ≤ i → i < k →
+      (callRows mode rule r init s k)[i]? ≠ (callRows mode rule r init s k)[i - 1]?)
+    (hfix : (callRows mode rule r init s k)[k]? = (callRows mode rule r init s k)[k - 1]?)
+    (hfuel : k < fuel) :
+    evolveDynamic fuel hist untilFixedPoint rule r mode s = some (evolveFixed hist (k + 1) rule r mode s) := by
+  sorry
+
+/-- Conversely, whenever the run with `until_fixed_point` ends normally, at least one step was taken,
+    the last two rows of this call are equal and no earlier pair of consecutive rows is. -/
+theorem untilFixedPoint_spec [DecidableEq α] [Inhabited α] (fuel : Nat) (hist : List (List α))
+    (init : List α) (hlast : hist.getLast? = some init) (rule : Rule1 σ α) (r : Nat) (mode : Mode)
+    (s s' : σ) (out : List (List α))
+    (h : evolveDynamic fuel hist untilFixedPoint rule r mode s = some (.ok (out, s'))) :
+    ∃ new, out = hist ++ new ∧ 1 ≤ new.length ∧
+      (init :: new)[new.length]? = (init :: new)[new.length - 1]? ∧
+      ∀ i, 1 ≤ i → i < new.length → (init :: new)[i]? ≠ (init :: new)[i - 1]? := by
+  sorry
+
+/-! ## Non-vacuity -/
+example : untilFixedPoint [[1, 0], [1, 0]] 2 = false := by decide
+example : untilFixedPoint [[1, 0], [0, 1]] 2 = true := by decide
+example : untilFixedPoint [[1, 0]] 1 = true := by decide
+
 end Cpl.C06
